@@ -6,7 +6,7 @@
    arbitrary answer scripts (iterators yielding after None, lying size hints). *)
 From Coq Require Import ZArith List Bool Lia Permutation.
 From MV Require Import Ast Eval Scalar Machine Model Policy.
-From MV.Proofs Require Import Arith Logic Prim View OpsLocal Guards Drops DrainIt Retain CapHistory Core FilterIt Grow Dedup.
+From MV.Proofs Require Import Arith Logic Prim View OpsLocal Guards Drops DrainIt Retain CapHistory Core FilterIt Grow Dedup Refine Clone Extend.
 Import ListNotations.
 Open Scope Z_scope.
 
@@ -141,3 +141,21 @@ Theorem C17_dedup_keeps_the_invariant :
 Proof. exact dedup_inv. Qed.
 Print Assumptions C17_dedup_any_comparator.
 Print Assumptions C17_dedup_keeps_the_invariant.
+
+(* extend(iter) with ANY iterator script -- yields a fresh element / ends / panics, in any order (the
+   loop never trusts a size hint): the vector is its old contents followed by the elements yielded
+   before the first None (or before the panic), in order, each held exactly once; an element whose
+   push is refused is destroyed; no pre-existing element is touched.  `yields sc` = (how many
+   elements come before the end or the panic, does it panic). *)
+Theorem C17_extend_any_iterator :
+  forall cfg ncap, cfg_ok cfg -> policy_ok ncap -> needs_drop cfg = true ->
+  forall s v l sc,
+  vabs cfg s v l ->
+  let '(n, p) := yields sc in
+  post (extend cfg ncap v sc s)
+    (fun _ s' => p = false /\ vabs cfg s' v (l ++ zseq (next_elem s) n) /\ next_elem s' = next_elem s + Z.of_nat n /\
+                 (forall e, e < next_elem s -> ledger s' e = ledger s e))
+    (fun s' => exists k, (k <= n)%nat /\ vabs cfg s' v (l ++ zseq (next_elem s) k) /\
+                         (forall e, e < next_elem s -> ledger s' e = ledger s e)).
+Proof. exact extend_abs. Qed.
+Print Assumptions C17_extend_any_iterator.
